@@ -42,7 +42,8 @@ def Lam(params, body):
 class T:
     """typed generator over a `draw` callable"""
 
-    def __init__(self, draw, fns=(), allow_errors=True, regex=True):
+    def __init__(self, draw, fns=(), allow_errors=True, regex=True, effects=False):
+        self.effects = effects        # operands may pop from / measure host lists, so evaluation order is observable
         self.draw = draw
         self._int = {}
         self.fns = dict(fns)          # name -> (param types, result type) of lambdas defined so far
@@ -96,7 +97,17 @@ class T:
             return Val(D(self.pick(['7', '99'])))
         return Val(D('0'))
 
+    def effect(self):
+        """a Dec-typed operand with a side effect on, or a reading of, a list variable"""
+        self.use('operand:effect')
+        v = Name(self.pick(VARS['LDec']))
+        if self.n(3) == 0:
+            return Call('len', [v], 'call')
+        return self.style('pop', [v])
+
     def key(self):
+        if self.effects and self.n(5) == 0:
+            return self.effect()
         r = self.n(8)
         if r < 3:
             return Val('a')
@@ -120,6 +131,8 @@ class T:
     def g_Dec(self, d, leaf):
         g = self.gen
         if leaf:
+            if self.effects and self.n(7) == 0:
+                return self.effect()
             if self.n(2) == 0:
                 return self.var('Dec')
             return Val(D(self.pick(DEC_LITS)))
@@ -554,9 +567,9 @@ def env_strategy(draw):
 
 
 @st.composite
-def programs(draw, max_stmts=6, max_depth=3, allow_errors=True, regex=True):
+def programs(draw, max_stmts=6, max_depth=3, allow_errors=True, regex=True, effects=False):
     """-> (list of marked statement trees, env, labels used)"""
-    t = T(draw, allow_errors=allow_errors, regex=regex)
+    t = T(draw, allow_errors=allow_errors, regex=regex, effects=effects)
     k = 1 + t.n(max_stmts)
     stmts = [t.stmt(t.n(max_depth + 1)) for _ in range(k)]
     if t.n(12) == 0:
